@@ -311,6 +311,7 @@ def run_send(report, tier, seed):
             seen.add(k)
             msgs.append(m)
     events = []
+    msgs = [m for m in msgs if m["bodyPos"] > 0]       # a roStorySend without <storyBody> is not schema-shaped
     for i, m in enumerate(msgs):
         for style in ("pretty", "compact"):
             g = Gamma("%s|send%d" % (seed, i), style=style)
